@@ -167,7 +167,13 @@ def build_model(P):
     a.outputs[0].name = vn("s3")
     inner = ir.Node("", "I", [a.outputs[0], i0], name=nn("m1"))
     inner.outputs[0].name = vn("s4")
-    sub = ir.Graph([], [inner.outputs[0]], nodes=[inner], name="sub")
+    # optional body-level values that no node touches (two body inputs, one body initializer)
+    sub_in, sub_init = [], []
+    if "s6" in P:
+        sub_in = [ir.Value(name=vn("s6")), ir.Value(name=vn("s7"))]
+        iname = vn("s8") or "wi_fallback"
+        sub_init = [ir.Value(name=iname, const_value=ir.Tensor(np.zeros(1, dtype=np.float32), name=iname))]
+    sub = ir.Graph(sub_in, [inner.outputs[0]], nodes=[inner], initializers=sub_init, name="sub")
     iff = ir.Node("", "If", [i1], attributes=[ir.AttrGraph("then_branch", sub)], name="n")
     iff.outputs[0].name = vn("s5")
     g = ir.Graph([i0, i1], [iff.outputs[0], a.outputs[0]], nodes=[a, iff], initializers=[w], name="main", opset_imports={"": 18})
@@ -178,7 +184,7 @@ def build_model(P):
     fg = ir.Graph([fi], [fn.outputs[0]], nodes=[fn], name="fg", opset_imports={"": 18})
     f = ir.Function("dom", "f", graph=fg, attributes=[])
     m = ir.Model(g, ir_version=10, functions=[f])
-    values = [i0, i1, w, a.outputs[0], inner.outputs[0], iff.outputs[0], fi, fn.outputs[0]]
+    values = [i0, i1, w, a.outputs[0], inner.outputs[0], iff.outputs[0], fi, fn.outputs[0]] + sub_in + sub_init
     nodes = [a, inner, iff, fn]
     return m, values, nodes, (g, sub, fg)
 
@@ -212,7 +218,7 @@ def namefix_body(P):
         problems.append(f"empty name left: values {after_v} nodes {after_n}")
     # uniqueness per scope: main graph values; subgraph values + everything visible from the enclosing scope; function values
     main_vals = [values[i] for i in (0, 1, 2, 3, 5)]
-    sub_vals = [values[4]]
+    sub_vals = [values[4]] + values[8:]
     f_vals = [values[6], values[7]]
     for label, vs in (("main", main_vals), ("sub+enclosing", main_vals + sub_vals), ("function", f_vals)):
         ns = [v.name for v in vs]
@@ -229,10 +235,11 @@ def namefix_body(P):
     if structure(values, nodes, (g, sub, fg)) != st0:
         problems.append("something other than names changed")
     # names that were already unique in the whole model are kept
-    model_scope = [values[i] for i in (0, 1, 2, 3, 4, 5)]
-    names_model = [v.name for v in model_scope]
-    for v, b, a in zip(values[:6], before_v[:6], after_v[:6]):
-        if b and before_v[:6].count(b) == 1 and a != b:
+    scope_idx = [0, 1, 2, 3, 4, 5] + list(range(8, len(values)))
+    scope_before = [before_v[i] for i in scope_idx]
+    for i in scope_idx:
+        b, a = before_v[i], after_v[i]
+        if b and scope_before.count(b) == 1 and a != b:
             problems.append(f"value name {b!r} was unique in the model but became {a!r}")
     for idx in (6, 7):
         b, a = before_v[idx], after_v[idx]
@@ -312,6 +319,27 @@ def make_case(tier, key):
 
         return hist.Case(f"NameFixPass[first input named {VPOOL[fixed]!r}]", ranges, body,
                          meta=dict(sig=sig, describe=lambda a, o: f"names {o['names']} -> {o.get('after')}: " + "; ".join(o["problems"][:2])))
+    if key[0] == "namefix-sub":
+        # body-level inputs / initializer that no node touches: s6, s7 (body inputs), s8 (body initializer) over the whole pool
+        ranges = {f"s{i}": (0, 1) for i in range(1, 6)}
+        ranges.update({f"s{i}": (0, len(VPOOL) - 1) for i in (6, 7, 8)})
+        ranges.update({f"m{i}": (0, 0) for i in range(2)})
+        fixed = key[1]
+
+        def body(P, fixed=fixed):
+            Q = dict(P)
+            Q["s0"] = fixed
+            return namefix_body(Q)
+
+        def sig(args, obs):
+            first = obs["problems"][0]
+            for tag in ("raised", "empty name", "duplicate value", "duplicate node", "initializer key", "other than names", "was unique", "modified=", "second run"):
+                if tag in first:
+                    return "C15:namefix:" + tag.replace(" ", "-")
+            return "C15:namefix:other"
+
+        return hist.Case(f"NameFixPass[body inputs/initializer untouched by nodes, first input named {VPOOL[fixed]!r}]", ranges, body,
+                         meta=dict(sig=sig, describe=lambda a, o: f"names {o['names']} -> {o.get('after')}: " + "; ".join(o["problems"][:2])))
     seed, mode = key[1], key[2]
     nv = len(irlib.seed(seed).values)
     ranges = dict(a=(0, nv - 1), b=(0, nv - 1), ta=(0, nv + 1), tb=(0, nv + 1)) if mode == "pair" else dict(a=(0, nv - 1), b=(0, nv - 1), c=(0, nv - 1))
@@ -342,12 +370,13 @@ def run(chk, tier):
     import itertools
 
     items = [(K, wv, ()) for K in (1, 2, 3) for wv in (False, True)]
+    items += [(3, True, (0, 2, 1))]     # explicit add, removal, generated add - with value names symbolic
     items += [(4, False, f) for f in itertools.product(range(4), repeat=2)]
     if not quick:
         items += [(4, True, f) for f in itertools.product(range(4), repeat=2)]
         items += [(5, False, f) for f in itertools.product(range(4), repeat=3)]
     parallel(chk, "harness.C15", "shard_authority", items)
-    keys = [("namefix", i) for i in range(len(VPOOL))] + [("rename", sd, md) for sd in (3, 4, 5) for md in ("pair", "rotation")]
+    keys = [("namefix", i) for i in range(len(VPOOL))] + [("namefix-sub", i) for i in range(2)] + [("rename", sd, md) for sd in (3, 4, 5) for md in ("pair", "rotation")]
     hist.run_cases(chk, "harness.C15", "make_case", keys)
     chk.extra["rule"] = "part 1: one case per (history length, which names are symbolic), all decision paths explored by z3 over arbitrary strings; part 2: one case per fixed first slot / seed, all slot assignments"
 
